@@ -82,7 +82,7 @@ let pr_result tag qid (r : result outcome) =
    | Err -> pr " ERR" | Panic -> pr " PANIC" | Hang -> pr " HANG");
   pr "\n"
 
-let pr_schema tag qid (s : (str * str list) list) =
+let pr_schema tag qid (s : (n list * n list list) list) =
   pr "%s %s OK %d" tag qid (List.length s);
   List.iter (fun (c, vs) -> pr_str c; pr " %d" (List.length vs); List.iter pr_str vs) s;
   pr "\n"
@@ -90,7 +90,7 @@ let pr_schema tag qid (s : (str * str list) list) =
 let writer_of = function "mem" | "memdb" -> WMem | "big" -> WBig | w -> failwith ("writer " ^ w)
 
 let dp (lines : string list) =
-  let datasets : (string, row list) Hashtbl.t = Hashtbl.create 16 in
+  let datasets : (string, (n list * n list) list list) Hashtbl.t = Hashtbl.create 16 in
   let stores : (string * writer_kind, store outcome) Hashtbl.t = Hashtbl.create 16 in
   let indexes : (string * writer_kind * bool, index outcome) Hashtbl.t = Hashtbl.create 16 in
   let get_store ds w =
